@@ -1,4 +1,5 @@
 """C16 Every documented scalar function computes its documented value for any argument."""
+import itertools
 import base64
 import datetime as dt
 import math
@@ -151,6 +152,14 @@ def gen(tier):
     for a, b in (("'shot 2023-10-01.png'", "'shot 2024-02-29.png'"), ("'2021-03-04 note'", "'2021-03-05 note'"), ("'x 2020-12-31'", "'x 2021-01-01'")):
         for fn in ('year', 'month', 'day', 'dow'):
             yield {'k': 'pair', 'a': '%s(%s)' % (fn, a), 'b': '%s(%s)' % (fn, b), 'fn': 'two-dates-one-prefix'}
+    # ... and an impossible date next to the valid date it would "normalise" to is still no date
+    for v, i in (('2024-02-01', '2024-01-32'), ('2025-01-01', '2024-13-01'), ('2025-01-01', '2024-12-32'), ('2024-12-31', '2025-00-31'),
+                 ('2024-03-01', '2024-02-30'), ('2024-05-01', '2024-04-31'), ('2023-03-01', '2023-02-29'), ('2024-01-31', '2024-02-00'),
+                 ('2024-02-01 00:00:00', '2024-01-31 24:00:00'), ('2024-01-01 01:00:00', '2024-01-01 00:60:00')):
+        for fn in ('year', 'month', 'day', 'dow'):
+            yield {'k': 'pair', 'a': "%s('%s')" % (fn, v), 'b': "%s('%s')" % (fn, i), 'fn': 'valid-then-impossible-date'}
+            yield {'k': 'pair', 'a': "%s('%s')" % (fn, i), 'b': "%s('%s')" % (fn, v), 'fn': 'valid-then-impossible-date'}
+            yield {'k': 'lit', 'expr': "%s('%s')" % (fn, i), 'exp': '', 'cmp': 'eq', 'fn': 'impossible-date'}
     yield {'k': 'daterows', 'expr': 'year(name)', 'fn': 'date-rows'}
     yield {'k': 'daterows', 'expr': 'month(name)', 'fn': 'date-rows'}
     yield {'k': 'daterows', 'expr': 'day(name)', 'fn': 'date-rows'}
@@ -190,6 +199,13 @@ def gen(tier):
                  ('log(8, 2)', 'log(8, 10)'), ('format_size(size, \'%.0\')', 'format_size(size, \'%.2\')'), ('substr(name, -1)', 'substr(name, 1)')):
         yield {'k': 'pair', 'a': a, 'b': b, 'fn': 'two-calls-in-one-query'}
         yield {'k': 'pair', 'a': b, 'b': a, 'fn': 'two-calls-in-one-query'}
+    # ---- three calls in one query, some of them negated: each column is still what it is alone
+    trio = ['length(name)', 'length(path)', 'length(ext)', 'abs(size)', 'power(size, 2)']
+    for a, b, c_ in itertools.permutations(trio, 3):
+        for signs in (('-', '-', ''), ('-', '', '-'), ('', '-', '-'), ('-', '-', '-')):
+            cols = [sg + e for sg, e in zip(signs, (a, b, c_))]
+            # the un-negated twin of the first call last (the value most likely to be remembered wrongly)
+            yield {'k': 'multi', 'cols': cols + [a], 'fn': 'negated-calls-in-one-query'}
     # ---- compositions
     for f in COMPOSE:
         for g in COMPOSE:
@@ -357,6 +373,21 @@ def eval_group(env, group, tier):
                         r.update(status='ok', sig=tuple(sorted(exp.values())))
                 finally:
                     env.rmtree(d2)
+            elif k == 'multi':
+                q2 = 'name, %s from . into list' % ', '.join(c['cols'])
+                o = env.run([q2], cwd=root)
+                rows_ = o.rows(1 + len(c['cols']))
+                alone = {}
+                for e_ in set(c['cols']):
+                    alone[e_] = dict(env.run(['name, %s from . into list' % e_], cwd=root).rows(2) or [])
+                if o.rc != 0 or not rows_:
+                    viol(c['fn'] + ':status', dict(o.brief(), query=q2))
+                else:
+                    bad = [(row[0], e_, v_, alone[e_].get(row[0])) for row in rows_ for e_, v_ in zip(c['cols'], row[1:]) if v_ != alone[e_].get(row[0])]
+                    if bad:
+                        viol(c['fn'], {'query': q2, 'row': bad[0][0], 'column': bad[0][1], 'got': bad[0][2], 'alone': bad[0][3]})
+                    else:
+                        r.update(status='ok', sig=tuple(rows_[0][1:]))
             elif k == 'pair':
                 # differential: the value of each call next to the other equals its value alone
                 q2 = 'name, %s, %s from . into list' % (c['a'], c['b'])
